@@ -78,6 +78,9 @@ func vfSameRecovered(a, b vfRecovered) bool {
 	return true
 }
 
+// vfC16Valued: the hold on key 2 carries a value (set by C16_crash through a choice).
+var vfC16Valued bool
+
 // vfC16History writes the history and rotates; returns the live instance.
 func vfC16History(dir string, third bool) *vfEnv {
 	env := vfNewEnv(1)
@@ -86,6 +89,11 @@ func vfC16History(dir string, third bool) *vfEnv {
 	for k := uint8(1); k <= 2; k++ {
 		c := env.newCmd(protocol.COMMAND_LOCK, vfKey(k), vfLockId(k))
 		c.Expried, c.ExpriedFlag, c.Count = 0xffff, 0x4100, 0
+		if k == 2 && vfC16Valued {
+			// the surviving hold carries a value: the compacted log has a value file too
+			c.Flag = protocol.LOCK_FLAG_CONTAINS_DATA
+			c.Data = protocol.NewLockCommandDataSetString("val")
+		}
 		env.lock(0, c)
 	}
 	u := env.newCmd(protocol.COMMAND_UNLOCK, vfKey(1), vfLockId(1))
@@ -134,6 +142,8 @@ func vfH_C16_whole() {
 // C16_crash: the process dies right after any one file-system mutation of the compaction.
 func vfH_C16_crash() {
 	dir := vfFSDir()
+	vfC16Valued = vfChoice("valued", 2) == 1
+	defer func() { vfC16Valued = false }()
 	env := vfC16History(dir, vfChoice("third", 2) == 1)
 	mark := vfFSMark()
 	before, ok := vfRecover(dir)
